@@ -145,9 +145,14 @@ func checkConnectives(r *Run, prog *Program, a *Anchors, pfx string) {
 		r.Fail("unresolved-anchor", pfx+".connective-cell", "dispatcher-params", prog.pos(fn.Pos()), "dispatcher does not have (node, datum, options) parameters")
 		return
 	}
-	pNode := &Sym{K: sParam, V: fn.Params[0], T: fn.Params[0].Type()}
-	pDatum := &Sym{K: sParam, V: fn.Params[1], T: fn.Params[1].Type()}
-	pOpt := &Sym{K: sParam, V: fn.Params[2], T: fn.Params[2].Type()}
+	nP, dP, oP := evalParams(fn)
+	if nP == nil || dP == nil || oP == nil {
+		r.Fail("unresolved-anchor", pfx+".connective-cell", "dispatcher-params", prog.pos(fn.Pos()), "dispatcher does not have (node, datum, options) parameters")
+		return
+	}
+	pNode := &Sym{K: sParam, V: nP, T: nP.Type()}
+	pDatum := &Sym{K: sParam, V: dP, T: dP.Type()}
+	pOpt := &Sym{K: sParam, V: oP, T: oP.Type()}
 
 	// every operator constant of the node types must have a spec row
 	for _, tn := range []string{"UnaryExpression", "BinaryExpression"} {
